@@ -31,7 +31,7 @@ def gen_presentation(rng, n, canonical=False, path='LIB'):
         recs = list(range(bounds[i], bounds[i + 1]))
         fmt = rng.choice(['fasta', 'afasta', 'msf', 'clu'])
         s = {'where': 'file', 'fmt': fmt, 'recs': recs,
-             'width': rng.choice([0, 1, 7, 10, 50, 60, 61, 80, 500]) if fmt in ('fasta', 'afasta') else rng.choice([10, 50, 60, 100]),
+             'width': rng.choice([0, 1, 7, 10, 50, 60, 61, 80, 500]) if fmt in ('fasta', 'afasta') else rng.choice([10, 50, 60, 100, 0, 0, 1000, 5000]),
              'gapfrac': rng.choice([0.0, 0.05, 0.3, 0.6, 0.9, 0.95]) if fmt != 'fasta' else rng.choice([0.0, 0.0, 0.1]),
              'gapsym': rng.choice({'fasta': '-', 'afasta': '-.', 'msf': '.~-', 'clu': '-'}[fmt]),
              'blank': rng.choice([0, 0, 1, 3]) if fmt in ('fasta', 'afasta') else 0,
@@ -46,11 +46,20 @@ def gen_presentation(rng, n, canonical=False, path='LIB'):
 
 
 def gen_spec(prop, rng, tier):
-    wl = gen.gen_workload(rng, weights=[14, 46, 22, 4, 3, 6, 5])
+    wl = gen.gen_workload(rng, weights=[12, 40, 20, 4, 10, 9, 5])
     # C04's premise: names and residues; keep names free of blanks and distinct
     n = len(wl['seqs'])
+    fasta_only = rng.random() < 0.12
+    if fasta_only:
+        # header lines far beyond any plausible line buffer (only FASTA carries names of any length)
+        wl['names'] = [gen.rand_seq(rng, gen.NAME_SAFE, rng.choice([300, 1100, 2500])) + '.%d' % i for i in range(n)]
     spec = {'kind': 'C04', 'prop': 'C04', 'wl': wl, 'nthreads': rng.choice([1, 1, 2, 4]), 'world': gen.gen_world(rng, calm=True),
             'pres': [gen_presentation(rng, n) for _ in range(rng.choice([2, 3, 4]) if tier == 'quick' else rng.choice([4, 6, 8]))]}
+    if fasta_only:
+        for p in spec['pres']:
+            for src in p['sources']:
+                if src['fmt'] in ('msf', 'clu'):
+                    src['fmt'] = 'afasta'; src['gapsym'] = '-'; src['width'] = rng.choice([0, 60, 500])
     return spec
 
 
